@@ -307,7 +307,7 @@ func c05miss(c *core.Ctx) {
 				key := core.F("%s:lookup#%d", fn, n[fn])
 				pos := c.P.Pos(lk.Pos())
 				what := "type-table lookup in " + fn
-				if r, ok := table[fn]; ok {
+				if r, ok := table[c.P.PinnedName(fn)]; ok {
 					c.Tabled(R, key, pos, what, r)
 					continue
 				}
